@@ -128,6 +128,10 @@ def _horizon(case):
 def _closing_obs(lab, c):
     if c["dt"] is None:
         return lab.cold([])
+    if c["dt"] == "sync" and c.get("kind") in ("N", "C") and c.get("hard"):
+        # fires synchronously INSIDE its subscribe call, whatever scheduler is passed (like an already completed
+        # Subject or a BehaviorSubject): the window's rule says "close immediately"
+        return lab.cold([[0, c["kind"], "i0" if c["kind"] == "N" else None]], sync=True)
     if c["dt"] == "sync":
         import reactivex
 
@@ -374,6 +378,10 @@ def _classes(case, obs_w, ties, choice):
                 cls.append("window-closed-by-its-rule-after-outer-ended")
     if any(c.get("via") == "timer" and isinstance(c["dt"], (int, float)) for key in ("closings", "ldur") for c in case.get(key, ())):
         cls.append("closing:scheduler-less-timer")
+    if any(c["dt"] == "sync" and c.get("hard") for key in ("closings", "ldur") for c in case.get(key, ())):
+        cls.append("closing:fires-inside-subscribe")
+        if any(w["end"] and w["end"][1] == "C" and w["end"][0] == w["open"] for w in obs_w["wins"]):
+            cls.append("zero-length-window")
     if case.get("nocancel"):
         cls.append("best-effort-cancellation-scheduler")
     if case.get("td_args") and case.get("clock", "test") == "test":
@@ -713,6 +721,8 @@ _closing = st.fixed_dictionaries(
     {"dt": st.sampled_from([0, 1, 1, 2, 3, 4, 6, None]), "kind": st.sampled_from(["N", "N", "C"]), "via": st.sampled_from(["timeline", "timeline", "timer"])}
 )
 _take = st.sampled_from([None, None, None, 1, 2, 3])
+_sync_closing = st.fixed_dictionaries({"dt": st.just("sync"), "kind": st.sampled_from(["N", "C"]), "hard": st.just(True)})
+_closing_or_sync = st.one_of(_closing, _closing, _closing, _sync_closing)
 _closings = st.lists(_closing, min_size=1, max_size=3).filter(lambda cs: any(c["dt"] != 0 for c in cs))
 _ints = ["n:0", "n:1", "n:2", "n:3"]
 _resub = st.sampled_from([None, None, None, None, {"mode": "after"}, {"mode": "after"}, {"mode": "overlap", "at": 1}, {"mode": "overlap", "at": 3}])
@@ -758,7 +768,7 @@ def _gen_form(f, tier="quick"):
             o=st.fixed_dictionaries(
                 {"kind": st.sampled_from(["cold", "cold", "hot"]), "tl": timelines(max_len=5, max_dt=4, values=_ints, terminal=(None, None, "C"))}
             ),
-            closings=st.lists(_closing, min_size=1, max_size=3),
+            closings=st.lists(_closing_or_sync, min_size=1, max_size=3),
             clock=_clock,
         )
     elif f == "gjoin":
@@ -766,7 +776,7 @@ def _gen_form(f, tier="quick"):
             left=st.fixed_dictionaries(
                 {"kind": st.sampled_from(["cold", "cold", "hot"]), "tl": timelines(max_len=5, max_dt=4, values=_ints, terminal=(None, None, "C"))}
             ),
-            ldur=st.lists(_closing, min_size=1, max_size=3),
+            ldur=st.lists(_closing_or_sync, min_size=1, max_size=3),
             rdur=st.lists(st.fixed_dictionaries({"dt": st.sampled_from(["sync", 0.5, 1.5, 2.5, 4.5, None]), "kind": st.sampled_from(["N", "N", "C"])}), min_size=1, max_size=3),
         )
     return st.fixed_dictionaries(base).map(_fix_resub)
